@@ -55,10 +55,36 @@ FEE_SWAPS = {("uniswap", "buy"), ("uniswap", "sell"), ("uniswap", "swap"), ("squ
 
 def plan(tier, seed):
     n = 30 if tier == "quick" else 800
-    return [{"shard": i, "cases": n} for i in range(NSHARDS)]
+    return [{"shard": i, "cases": n} for i in range(NSHARDS)] + [{"shard": NSHARDS, "cases": 0, "suite": True}]
+
+
+def run_suite_shard(mon):
+    """the repository's own test suite (real-data workloads) under the non-negative monitor of vmon/suitemon.py (clause D)"""
+    from .. import suiterun
+
+    events, info = suiterun.run_suite()
+    mon.note("suite", {"rc": info["rc"], "wall_s": info["wall"], "tail": info["tail"][-160:]})
+    mon.hit("suite-tests-passed", sum(1 for e in events if e.get("mon") == "test" and e.get("outcome") == "passed"))
+    for e in events:
+        if e.get("mon") != "non-negative":
+            continue
+        mon.case_id = {"suite_test": e.get("test")}
+        mon.ev()
+        mon.hit("suite-operations")
+        mon.cls(f"suite-accepted/{e['market']}/{e['op']}")
+        if e.get("changed"):
+            mon.nt(f"suite/{e['market']}/{e['op']}")
+        if not e["ok"]:
+            fam = sorted({site_market(p) + "/" + field_family(p) for p in e["paths"]})
+            mon.violation(e["market"], e["op"], "negative-holding", fam[0],
+                          f"repository test {e.get('test')}: after {e['market']}.{e['op']} negative fields {e['paths']}", {"suite_test": e.get("test")})
 
 
 def run(spec, mon):
+    if spec.get("suite"):
+        if mon.only_case is None or isinstance(mon.only_case, dict):
+            run_suite_shard(mon)
+        return
     for c in range(spec["cases"]):
         rng = mon.case_rng(c)
         if not mon.want(c):
@@ -404,6 +430,8 @@ def floors(merged, tier):
             out.append(f"fewer than 5 accepted operations on market {mk}")
         if mk != "broker" and rej.get(mk, 0) < 5:
             out.append(f"fewer than 5 rejected operations on market {mk}")
+    if merged["reach"].get("suite-tests-passed", 0) < 100:
+        out.append(f"the repository's test suite under monitors passed only {merged['reach'].get('suite-tests-passed', 0)} tests (expected about 154)")
     if merged["reach"].get("swap-fee-checked", 0) < 5:
         out.append("fewer than 5 swaps whose loss was compared with the reported fee")
     return out
